@@ -90,6 +90,22 @@ macro_rules! impl_policy {
                         }
                     });
 
+                    #[cfg(transparencies_stretto_verif)]
+                    {
+                        let mut args: Vec<u64> = vec![
+                            min_key,
+                            min_hits as u64,
+                            min_id as u64,
+                            min_cost as u64,
+                            inc_hits as u64,
+                            room as u64,
+                        ];
+                        sample.iter().for_each(|p| {
+                            args.push(p.key);
+                            args.push(p.cost as u64);
+                        });
+                        crate::verif::note("pol:sample", &args);
+                    }
                     // If the incoming item isn't worth keeping in the policy, reject.
                     if inc_hits < min_hits {
                         self.metrics.add(MetricType::RejectSets, key, 1);
@@ -495,5 +511,38 @@ impl TinyLFU {
     #[inline]
     pub fn contains(&self, kh: u64) -> bool {
         self.doorkeeper.contains(kh)
+    }
+}
+
+#[cfg(transparencies_stretto_verif)]
+impl TinyLFU {
+    pub(crate) fn verif_snap(&self) -> crate::verif::TlfuSnap {
+        crate::verif::TlfuSnap {
+            sketch: self.ctr.verif_snap(),
+            bloom: self.doorkeeper.verif_snap(),
+            samples: self.samples as u64,
+            w: self.w as u64,
+        }
+    }
+    pub(crate) fn verif_set_seeds(&mut self, seeds: [u64; 4]) {
+        self.ctr.verif_set_seeds(seeds)
+    }
+}
+
+#[cfg(transparencies_stretto_verif)]
+impl<S: BuildHasher + Clone + 'static> PolicyInner<S> {
+    pub(crate) fn verif_snap(&self) -> crate::verif::PolicySnap {
+        let mut key_costs: Vec<(u64, i64)> =
+            self.costs.key_costs.iter().map(|(k, c)| (*k, *c)).collect();
+        key_costs.sort();
+        crate::verif::PolicySnap {
+            key_costs,
+            used: self.costs.used,
+            max_cost: self.costs.get_max_cost(),
+            tlfu: self.admit.verif_snap(),
+        }
+    }
+    pub(crate) fn verif_tlfu_mut(&mut self) -> &mut TinyLFU {
+        &mut self.admit
     }
 }
